@@ -48,11 +48,16 @@ Inductive rkind := RAcl | RPool | RGp.
 Definition rkind_eqb (a b : rkind) : bool := match a, b with RAcl, RAcl | RPool, RPool | RGp, RGp => true | _, _ => false end.
 Definition line_ref (w : words) : option (rkind * string) :=
   match w with
-  | ["vpn-filter"; "value"; a] => Some (RAcl, a)
-  | ["split-tunnel-network-list"; "value"; a] => Some (RAcl, a)
-  | ["address-pools"; "value"; p] => Some (RPool, p)
-  | ["default-group-policy"; g] => Some (RGp, g)
-  | ["vpn-group-policy"; g] => Some (RGp, g)
+  | [a; b; c] =>
+      if negb (String.eqb b "value") then None
+      else if String.eqb a "vpn-filter" then Some (RAcl, c)
+      else if String.eqb a "split-tunnel-network-list" then Some (RAcl, c)
+      else if String.eqb a "address-pools" then Some (RPool, c)
+      else None
+  | [a; b] =>
+      if String.eqb a "default-group-policy" then Some (RGp, b)
+      else if String.eqb a "vpn-group-policy" then Some (RGp, b)
+      else None
   | _ => None
   end.
 Definition is_no (w : words) : option words := match w with "no" :: l => Some l | _ => None end.
